@@ -95,6 +95,9 @@ pub struct World {
     pub final_slots: Vec<Option<Vec<H>>>,
     pub spawn_refs: Vec<Option<ActorRef<SA>>>,
     pub last_graph: Vec<(i64, i64)>,
+    /// edges left in the process-wide graph by earlier executions of this process (only under a defect);
+    /// they are not part of this execution's observation
+    pub graph_baseline: Vec<(u64, u64)>,
 }
 
 thread_local! {
@@ -645,6 +648,57 @@ async fn exec(cx: &mut Cx<'_>, st: &Step) {
         }
         Step::Panic(t) => panic!("injected:{t}"),
         Step::Send { kind, slot, msg } => exec_send(cx, *kind, *slot, msg).await,
+        Step::JoinAsk { slot_a, msg_a, slot_b, msg_b } => {
+            let get = |cx: &Cx<'_>, slot: u8| -> Option<ActorRef<SA>> {
+                match resolve(cx, slot) {
+                    Got::Local(H::Strong(r)) => Some(r.clone()),
+                    Got::Temp(H::Strong(r)) => Some(r),
+                    Got::SelfRef(r) => Some(r.clone()),
+                    _ => None,
+                }
+            };
+            let (ra, rb) = (get(cx, *slot_a), get(cx, *slot_b));
+            let (opa, rawa) = op_start(OpK::Send(SendKind::Ask), ra.as_ref().map(|r| r.identity()), Some(msg_a.id), *slot_a, "join");
+            let (opb, rawb) = op_start(OpK::Send(SendKind::Ask), rb.as_ref().map(|r| r.identity()), Some(msg_b.id), *slot_b, "join");
+            match (ra, rb) {
+                (Some(ra), Some(rb)) => {
+                    let fa = async {
+                        let r = rep(ra.ask(Msg { spec: msg_a.clone(), carried: None }).await, rawa);
+                        op_end(opa, r);
+                    };
+                    let fb = async {
+                        let r = rep(rb.ask(Msg { spec: msg_b.clone(), carried: None }).await, rawb);
+                        op_end(opb, r);
+                    };
+                    futures::join!(fa, fb);
+                }
+                _ => {
+                    op_end(opa, Res::NoHandle);
+                    op_end(opb, Res::NoHandle);
+                }
+            }
+        }
+        Step::JoinAskPanic { slot, msg } => {
+            let r = match resolve(cx, *slot) {
+                Got::Local(H::Strong(r)) => Some(r.clone()),
+                Got::Temp(H::Strong(r)) => Some(r),
+                _ => None,
+            };
+            let (op, raw) = op_start(OpK::Send(SendKind::Ask), r.as_ref().map(|r| r.identity()), Some(msg.id), *slot, "join");
+            if let Some(r) = r {
+                let fa = async {
+                    let res = rep(r.ask(Msg { spec: msg.clone(), carried: None }).await, raw);
+                    op_end(op, res);
+                };
+                let fb = async {
+                    yield_point().await;
+                    panic!("injected:join");
+                };
+                futures::join!(fa, fb);
+            } else {
+                op_end(op, Res::NoHandle);
+            }
+        }
         Step::SendThen { kind, slot, msg, other, drop_first } => {
             // only the typed / erased tell and ask of M1 messages, the forms the erased handlers offer
             let (op, raw, fut): (u32, Option<u64>, Option<std::pin::Pin<Box<dyn Future<Output = Res> + Send>>>) = {
@@ -1406,8 +1460,18 @@ fn mailboxes() -> Vec<(i32, i32)> {
 }
 
 #[cfg(feature = "f_deadlock")]
+fn baseline_graph() -> Vec<(u64, u64)> {
+    rsactor::verif::wait_for_edges()
+}
+#[cfg(not(feature = "f_deadlock"))]
+fn baseline_graph() -> Vec<(u64, u64)> {
+    Vec::new()
+}
+
+#[cfg(feature = "f_deadlock")]
 fn graph_snapshot() {
-    let edges = rsactor::verif::wait_for_edges();
+    let base = world(|w| w.graph_baseline.clone());
+    let edges: Vec<(u64, u64)> = rsactor::verif::wait_for_edges().into_iter().filter(|e| !base.contains(e)).collect();
     let mapped: Vec<(i64, i64)> = edges
         .iter()
         .map(|(a, b)| {
@@ -1486,6 +1550,7 @@ async fn controller(scn: Arc<Scenario>, chooser: &mut dyn Chooser) -> (Vec<StepR
             final_slots: (0..nc).map(|_| None).collect(),
             spawn_refs: (0..na).map(|_| None).collect(),
             last_graph: Vec::new(),
+            graph_baseline: baseline_graph(),
         })
     });
     #[cfg(feature = "f_testutils")]
